@@ -574,8 +574,34 @@ def q_barriers(cfg):
             res.ob(ok, {'rule': 'Q-10', 'function': sh(f.name), 'site': fileline(e.get('loc')), 'verdict': 'discharged' if ok else 'VIOLATION: argument derives from ' + ','.join(bad)})
             if not ok:
                 res.find(f, e.get('loc'), 'single-thread mode is decided on a state word produced by `%s` - the state AFTER this thread\'s own update - instead of the observed old state: with two threads registered, the leaving thread would treat "one thread remains" as single-thread mode and free current-interval requests the remaining thread may still reference' % bad[0], key='Q-10:stm-on-new-state', config=cfg.name)
+    # Q-10b: the mode handed to the epoch change is decided in the function that made the state-word update, from the state it
+    # observed there - not handed in by a caller that looked at the state word earlier
+    m10 = 0
+    for f in cfg.functions:
+        if not f.blocks or f.basefile not in ('qsbr.hpp', 'qsbr.cpp'):
+            continue
+        ci = wsum.const_inits(f)
+        for b, i, e in calls(f, lambda e: e.get('name') in ('change_epoch', 'epoch_change_barrier_and_handle_orphans') and (e.get('cls') or '') == Q):
+            args = e.get('args', [])
+            mode = args[-1] if args else None
+            if mode is None:
+                continue
+            m10 += 1
+            x = f.strip_casts(mode)
+            d = 0
+            while isinstance(x, dict) and x.get('k') == 'ref' and x.get('vk') == 'local' and x['did'] in ci and d < 4:
+                x = f.strip_casts(ci[x['did']])
+                d += 1
+            decided_here = isinstance(x, dict) and x.get('k') == 'call' and (x.get('callee') or '').startswith(QS + '::single_thread_mode')
+            forwarded = isinstance(x, dict) and x.get('k') == 'ref' and x.get('vk') == 'param' and f.short == 'change_epoch'
+            ok = decided_here or forwarded
+            res.ob(ok, {'rule': 'Q-10b', 'function': sh(f.name), 'site': fileline(e.get('loc')), 'mode': 'single_thread_mode(observed state)' if decided_here else ('forwarded by change_epoch' if forwarded else 'other'), 'verdict': 'discharged' if ok else 'VIOLATION'})
+            if not ok:
+                res.find(f, e.get('loc'), '%s hands %s() a single-thread mode that was not decided here from the state word this function observed when it made its update (it comes from %s): the caller looked at the state word BEFORE the decrement - other threads may have resumed in between, and orphaned current-interval requests would be freed at once under a thread that still holds them' % (f.short, e.get('name'), 'a parameter' if isinstance(x, dict) and x.get('vk') == 'param' else 'elsewhere'), key='Q-10b:%s' % f.short, config=cfg.name)
+    res.count('epoch-change mode hand-overs', m10)
+    res.floor('epoch-change mode hand-overs', 3)
     res.count('single_thread_mode decisions', n)
-    res.floor('single_thread_mode decisions', 4)
+    res.floor('single_thread_mode decisions', 3)
     res.floor('announcement sites', 1)
     res.floor('epoch advance sites', 2)
     return res
